@@ -182,7 +182,7 @@ def main():
         rp = os.path.join(replay_dir, stamp + ".json")
         write_json(rp, {"property": pid, "kind": "failing-input", "seed": seed, "tier": tier,
                         "violations": violations[:25], "count": len(violations), "import_error": import_error,
-                        "proof_ok": proof_ok, "corr_ok": corr_ok})
+                        "proof_ok": proof_ok, "corr_ok": corr_ok}, sort_keys=False)
         print("VIOLATION property=%s replay=%s" % (pid, rp))
         exit_code = 1
     elif not proof_ok or not corr_ok:
@@ -195,7 +195,7 @@ def main():
                             {"family": r["family"], "mismatches": len(r.get("mismatches", [])), "model_error": r.get("model_error")}
                             for r in corr_results if r.get("mismatches") or r.get("model_error")],
                         "mismatching_cases": mism, "property_evaluation_disagreements": dis_prop[:25],
-                        "note": "no input inside the proved region was found on which the implementation fails the property"})
+                        "note": "no input inside the proved region was found on which the implementation fails the property"}, sort_keys=False)
         print("VIOLATION property=%s replay=%s no-failing-input-found" % (pid, rp))
         exit_code = 1
 
